@@ -622,6 +622,34 @@ def run_c14(ctx):
                      'ISO 639 language descriptor: one (language, audio type) entry, as the library models it'])
 
 
+TABLE_KINDS = ['pat', 'pmt', 'sdt', 'nit', 'eit', 'tot']
+
+
+def run_c13(ctx):
+    build_harness(ctx)
+    quick = ctx.tier == 'quick'
+    model_check(ctx, 'PSIProps', 'PSIProps.cfg', workers=4)
+    sd = ctx.seed
+    scs = []
+    for k in TABLE_KINDS:
+        for i in range(2 if quick else 16):
+            scs.append({'sid': 'psi-tables-%s-%d' % (k, i), 'kind': 'psi', 'part': 'tables', 'k': k, 'seed': sd * 31 + i, 'n': 60 if quick else 400})
+            scs.append({'sid': 'psi-units-%s-%d' % (k, i), 'kind': 'psi', 'part': 'units', 'k': k, 'seed': sd * 37 + i, 'n': 25 if quick else 150})
+        scs.append({'sid': 'psi-large-%s' % k, 'kind': 'psi', 'part': 'large', 'k': k, 'seed': sd, 'n': 6 if quick else 60})
+    for i in range(4 if quick else 32):
+        scs.append({'sid': 'psi-writer-%d' % i, 'kind': 'psi', 'part': 'writer', 'seed': sd * 41 + i, 'n': 80 if quick else 500})
+        scs.append({'sid': 'psi-muxer-%d' % i, 'kind': 'psi', 'part': 'muxer', 'seed': sd * 43 + i, 'n': 40 if quick else 300})
+    return pipeline(
+        ctx, 'Mon_C13', 'psi', scs,
+        rule='table models per kind (PAT, PMT, SDT, NIT, EIT, TOT; table_id variants 0x40/41, 0x42/46, 0x4E-0x6F, 0x73): 0..3 loop entries with '
+             'identifier fields at 0 / max / single-bit / random, header fields (private bit, version, current/next, section numbers) random, 0..2 '
+             'descriptors of any supported kind per loop; units of 1..3 sections with pointer fields and trailing stuffing; large tables up to the '
+             '1021 / 4093-byte limits; writePSIData for PAT/PMT with arbitrary header fields; the PAT/PMT the Muxer emits for 1..4 streams with '
+             'descriptors. Reference bytes and expected fields by TLC (PSI.tla, Descriptors.tla, CRC32.tla)',
+        assumptions=['descriptor loops inside twin-built sections come from the real descriptor writer, which C14 judges against Descriptors.tla; TLC '
+                     're-derives every twin-built unit before it is used'])
+
+
 PROPS = {
     'C01': lambda ctx: run_mux_family(ctx, 'C01'),
     'C04': lambda ctx: run_mux_family(ctx, 'C04'),
@@ -640,4 +668,5 @@ PROPS = {
     'C11': run_c11,
     'C12': run_c12,
     'C14': run_c14,
+    'C13': run_c13,
 }
